@@ -1096,6 +1096,18 @@ func (x *c10) closePairing() {
 				if !e.Val.IsNil() || !ToPoly(e.Addr.Args[1]).Equal(lenSubs.Add(polyConst(1), -1)) {
 					ok, why = false, "an element of the subscriber list is overwritten: "+e.String()+" (only the vacated last slot may be cleared)"
 				}
+				// ... and the slot is vacated only once the elements behind the removed one have been moved down: cleared
+				// before that, the nil is moved along and the last subscriber is gone
+				shiftAt := -1
+				for j := range p.Events {
+					f := &p.Events[j]
+					if f.Kind == "call" && (f.Name == "builtin.copy" || f.Name == "builtin.append") && len(f.Args) >= 1 && rootOf(f.Args[0]) != nil && x.isSubsLoad(rootOfSlice(f.Args[0]), recv) {
+						shiftAt = j
+					}
+				}
+				if shiftAt < 0 || i < shiftAt {
+					ok, why = false, "the last slot of the subscriber list is cleared before the elements behind the removed one are moved down: the nil is moved along and a subscriber is lost"
+				}
 			}
 			v := stores[0].Val
 			good := v.Op == "builtin" && v.Sym == "append" && len(v.Args) == 2 &&
@@ -2003,4 +2015,12 @@ func impliesMinusOne(p *Path, t *Term) bool {
 		}
 	}
 	return false
+}
+
+// rootOfSlice: the slice value a window x[a:b] (possibly nested) is taken from.
+func rootOfSlice(t *Term) *Term {
+	for t != nil && t.Op == "slice" && len(t.Args) > 0 {
+		t = t.Args[0]
+	}
+	return t
 }
